@@ -386,13 +386,20 @@ impl<S: Syntax, D> SyntaxToken<S, D> {
     /// This is not necessary a direct sibling of this token, but will always be further right in the tree.
     #[inline]
     pub fn next_token(&self) -> Option<&SyntaxToken<S, D>> {
-        match self.next_sibling_or_token() {
-            Some(element) => element.first_token(),
-            None => self
-                .parent()
-                .ancestors()
-                .find_map(|it| it.next_sibling_or_token())
-                .and_then(|element| element.first_token()),
+        // The element following this token may be a node without any tokens, in which case we keep on looking
+        // behind that element.
+        let mut next = match self.next_sibling_or_token() {
+            Some(element) => element,
+            None => self.parent().ancestors().find_map(|it| it.next_sibling_or_token())?,
+        };
+        loop {
+            if let Some(token) = next.first_token() {
+                return Some(token);
+            }
+            next = match next.next_sibling_or_token() {
+                Some(element) => element,
+                None => next.ancestors().find_map(|it| it.next_sibling_or_token())?,
+            };
         }
     }
 
@@ -400,13 +407,20 @@ impl<S: Syntax, D> SyntaxToken<S, D> {
     /// This is not necessary a direct sibling of this token, but will always be further left in the tree.
     #[inline]
     pub fn prev_token(&self) -> Option<&SyntaxToken<S, D>> {
-        match self.prev_sibling_or_token() {
-            Some(element) => element.last_token(),
-            None => self
-                .parent()
-                .ancestors()
-                .find_map(|it| it.prev_sibling_or_token())
-                .and_then(|element| element.last_token()),
+        // The element preceding this token may be a node without any tokens, in which case we keep on looking
+        // in front of that element.
+        let mut prev = match self.prev_sibling_or_token() {
+            Some(element) => element,
+            None => self.parent().ancestors().find_map(|it| it.prev_sibling_or_token())?,
+        };
+        loop {
+            if let Some(token) = prev.last_token() {
+                return Some(token);
+            }
+            prev = match prev.prev_sibling_or_token() {
+                Some(element) => element,
+                None => prev.ancestors().find_map(|it| it.prev_sibling_or_token())?,
+            };
         }
     }
 }
